@@ -340,4 +340,15 @@ def pred_C06(ctx, d, iobs):
                 continue
             if got != (sub if subtree else own):
                 fails.append('structure %d: get_mask(subtree=%s) %r' % (sid, subtree, got))
+        # the structure found at any of its own pixels is the structure itself
+        for p in s['tiown']:
+            coord = tuple(int(x) for x in np.unravel_index(p, ctx.shape))
+            try:
+                found = d.structure_at(coord)
+            except Exception as e:  # noqa
+                fails.append('structure_at(%r) raised %s' % (coord, type(e).__name__))
+                continue
+            if found is None or int(found.idx) != sid:
+                fails.append('structure_at(%r) gives %r for a pixel of structure %d'
+                             % (coord, None if found is None else int(found.idx), sid))
     return fails
